@@ -1,0 +1,42 @@
+//go:build verif
+
+// Contracts for contract-based verification (/verif). Comment-only: with or without the
+// build tag "verif" this file adds nothing to the compiled package.
+
+package rendering
+
+// The render helpers only touch the ghost model of the ResponseWriter (status, body writes).
+
+//@ func RenderJSON
+//@   modifies httpOut
+//@   ensures [status] r0 == nil ==> ghost(httpStatus) == status && ghost(httpStatusWriter) == ref(w) && ghost(httpWriteHeaders) == old(ghost(httpWriteHeaders)) + 1 && ghost(httpWrites) == old(ghost(httpWrites)) + 1
+//@   ensures [nothing-on-error] r0 != nil ==> ghost(httpWriteHeaders) == old(ghost(httpWriteHeaders)) && ghost(httpWrites) == old(ghost(httpWrites))
+
+//@ spec rendered(w net/http.ResponseWriter, code int) bool = ghost(httpStatusWriter) == ref(w) && (ghost(httpStatus) == code || ghost(httpStatus) == 500) && ghost(httpWriteHeaders) == old(ghost(httpWriteHeaders)) + 1
+
+//@ func RenderForbiddenWithTypeMsg
+//@   modifies httpOut
+//@   ensures [403] rendered(w, 403)
+//@ func RenderInternalServerError
+//@   modifies httpOut
+//@   ensures [500] rendered(w, 500)
+//@ func RenderRequestEntityTooLarge
+//@   modifies httpOut
+//@   ensures [413] rendered(w, 413)
+//@ func RenderTruncatedHTTPRequestError
+//@   modifies httpOut
+//@   ensures [400] rendered(w, 400)
+//@ func RenderInvalidRequestID
+//@   modifies httpOut
+//@   ensures [400] rendered(w, 400)
+//@ func RenderInvalidFunctionResponseMode
+//@   modifies httpOut
+//@   ensures [400] rendered(w, 400)
+//@ func RenderAccepted
+//@   modifies httpOut
+//@   ensures [202] rendered(w, 202)
+
+// C02: the two refusals of the interop server are answered with 400 InvalidRequestID
+//@ func RenderInteropError
+//@   modifies httpOut
+//@   ensures [400-for-refusals] err == interop.ErrInvalidInvokeID || err == interop.ErrResponseSent ==> rendered(writer, 400)
